@@ -138,7 +138,9 @@ def native_run(ctx, scenario, big):
             open(p, 'w').write(FAKES[scenario])
             os.chmod(p, 0o755)
         o = Oracle(env={'PATH': d + ':/bin:/usr/bin'})
-        src = '@fragment fn main() {}\n' + ('// ' + 'x' * 100 + '\n') * (3000 if big else 0)
+        # the embedded SOURCE literal is part of the program: text with `} `, `; `, `{ ` and quotes must survive formatter and fallback alike
+        src = ('fn h(x: f32) -> f32 { if (x > 0.0) { return 1.0; } else { return 2.0; } } // "q" \\ { } ;  \n@fragment fn main() {}\n'
+               + ('// ' + 'x' * 100 + '\n') * (3000 if big else 0))
         r = o.req(cmd='gen', wgsl=src, options={'rustfmt': True}, include=None, _timeout=30)      # a hang is a finding, not a wait
         o.close()
         r0 = ctx.S.oracle.gen(src, {'rustfmt': False})
@@ -188,8 +190,10 @@ def run(ctx):
         elif should_format:
             if not isinstance(out, OutStr):
                 bad = 'formatter succeeded but its output was not returned'
+        elif not isinstance(out, TokString):
+            bad = f'returns {out!r} (text that went through a text-altering operation) instead of the unformatted program'
         else:
-            if not (isinstance(out, TokString) and out.via == ('to_string',) and T.first_diff(T.canon(out.toks), T.canon(toks.toks)) is None):
+            if not (out.via == ('to_string',) and T.first_diff(T.canon(out.toks), T.canon(toks.toks)) is None):
                 bad = f'returns {out!r} instead of the unformatted program'
         ctx.queries['discharged'] += 1
         if bad is None:
